@@ -58,6 +58,7 @@ def module_sets(tier, seed):
     sets.append(["verif:corpus/Dup1.asn1", "verif:corpus/Dup2.asn1", "verif:corpus/Dup3.asn1"])   # the same identifiers defined in three modules   # ... into a module with different default tagging
     sets.append(["verif:corpus/OidV1.asn1", "verif:corpus/OidV2.asn1", "verif:corpus/OidBase.asn1", "verif:corpus/OidUser.asn1"])   # same module name, different OIDs
     sets.append(["verif:corpus/LstA.asn1", "verif:corpus/LstB.asn1"])          # a list type and its element type in two modules that import each other
+    sets.append(["verif:corpus/ExtBase.asn1", "verif:corpus/ExtNarrow.asn1", "verif:corpus/ExtAlias.asn1"])   # extensible constraints: narrowed in one module, inherited unchanged in another
     sets.append(["verif:corpus/ObjA.asn1", "verif:corpus/ObjB.asn1"])          # types used only through information objects of another module
     sets.append(["verif:corpus/ResA.asn1", "verif:corpus/ResB.asn1", "verif:corpus/ResC.asn1"])   # same names meaning different things in different modules
     sets.append(["verif:corpus/Sim1.asn1", "verif:corpus/Sim2.asn1", "verif:corpus/Sim3.asn1"])
